@@ -141,6 +141,21 @@ class _Linalg:
             x = obj(x)
         if ord not in (None, 2, "fro"):
             raise NotImplementedError("norm ord=%r" % (ord,))
+        # numpy's dispatch: a matrix norm when axis is a pair, or axis is None and ord is given on a 2-D array
+        if isinstance(axis, (tuple, list)) and len(axis) == 1:
+            axis = axis[0]
+        matrix = (isinstance(axis, (tuple, list)) and len(axis) == 2) or (axis is None and ord is not None and x.ndim == 2)
+        if axis is None and ord is not None and x.ndim not in (1, 2):
+            raise ValueError("Improper number of dimensions to norm.")
+        if ord == "fro" and not matrix:
+            raise ValueError("Invalid norm order 'fro' for vectors")
+        if matrix and ord == 2:
+            dims_ = tuple(x.shape[a] for a in (axis if axis is not None else (0, 1)))
+            if min(dims_) > 1:
+                # the spectral norm (largest singular value) is not a rational/radical term of the entries
+                raise NotImplementedError("spectral norm of a %dx%d block" % dims_)
+        if isinstance(axis, list):
+            axis = tuple(axis)
         sq = x * x
         s = sq.sum(axis=axis, keepdims=keepdims)
         return NPX.sqrt(s)
